@@ -8,8 +8,11 @@ from props import logix as lx
 from props.codec import oracle_eq
 
 
-def sized_project(rng, sizes_names, rev=32, reads=None, struct_elem=None):
-    """controller with SINT arrays (or arrays of a struct) of exact byte sizes and chosen name lengths"""
+def sized_project(rng, sizes_names, rev=None, reads=None, struct_elem=None):
+    """controller with SINT arrays (or arrays of a struct) of exact byte sizes and chosen name lengths; the firmware
+    revision varies (what the driver negotiates must not depend on it: the granted size is the target's decision)"""
+    if rev is None:
+        rev = rng.choice([12, 16, 19, 20, 21, 32, 32, 32])
     templates = []
     if struct_elem:
         t = lg.Template(0x2B0, "BLK", 0x1234)
